@@ -66,7 +66,9 @@ impl Ref {
             | Value::String(None)
             | Value::Double(None)
             | Value::Bytes(None) => "NULL".into(),
-            // optional types: text-level only; their spelling is C03's business
+            // a JSON document is written as the string literal of its serialised text
+            Value::Json(Some(j)) => strlit(&j.to_string()),
+            // other optional types: text-level only; their spelling is C03's business
             other => qb(self.d).value_to_string(other),
         }
     }
